@@ -679,7 +679,15 @@ func writeEvidence(scn *sim.Scenario, prop, tier string, seed uint64, total *sim
 	}
 	for _, p := range scn.ProbeNames {
 		if _, ok := probes[p]; !ok {
-			probes[p] = 0
+			probes[p] = total.Counters[p] // a probe whose name lacks the "probe." prefix is counted under its own name
+			delete(other, p)
+		}
+	}
+	if tier == "thorough" {
+		for _, p := range scn.ProbeNames {
+			if probes[p] == 0 {
+				fmt.Printf("NOTE: reach probe %s stayed at zero in this thorough batch\n", p)
+			}
 		}
 	}
 	for _, f := range scn.FaultKinds {
